@@ -17,6 +17,11 @@ def run(tier: str, seed: int):
         e3c = list(F.fam_e3(list(F.fam_faults(1, 3, max_faults=1, reqs='sinks')) + list(F.fam_limits(1, 3, tnames=('TA', 'TB'), faults=True)), workers=(1, 2), die_exit0=(False, True)))
         # default displays (progress bars + task monitor) switched on
         e3c += list(F.fam_e3(F.fam_faults(2, 3, max_faults=1, reqs='all'), workers=(1, 2), backends=('fork',), monitor=True, liveness=False))
+        # a single-CPU host with the default worker count; worker processes that never exit after their result;
+        # a task whose own filter_context() fails (spawn: no process is ever started for it)
+        e3c += list(F.fam_e3(F.fam_shapes(1, 3, pre=False), workers=(None,), cpu_count=1, liveness=False))
+        e3c += list(F.fam_e3(F.fam_limits(2, 3, tnames=('TA',)), workers=(1, 2), backends=('fork',), liveness=False, linger=True))
+        e3c += list(F.fam_e3(F.fam_faults(1, 3, max_faults=1, reqs='sinks', kinds=('raise',), fault_exc='filter', types='TX', cofs=(True,)), workers=(1, 2), liveness=False))
     else:
         cfgs = (list(F.fam_faults(1, 4, max_faults=2, reqs='subsets', batch=3)) + list(F.fam_faults(5, 5, max_faults=1, reqs='sinks'))
                 + list(F.fam_limits(1, 4, batch=3, faults=True, stutter=True, tnames=('TA', 'TB', 'TC', 'TD'))) + list(F.fam_shapes(1, 5, batch=2)))
@@ -24,4 +29,6 @@ def run(tier: str, seed: int):
         rule = 'n<=5; fault sets <=2; limits {None,1,2,3}; stutter'
         e3c = list(F.fam_e3(F.fam_faults(2, 3, max_faults=1, reqs='all'), workers=(1, 2), monitor=True, liveness=False))
         e3c += list(F.fam_e3(list(F.fam_faults(1, 3, max_faults=2)) + list(F.fam_limits(1, 3, tnames=('TA', 'TB', 'TC'), faults=True)), workers=(1, 2, None), die_exit0=(False, True))) + list(F.fam_e3(F.fam_faults(4, 4, max_faults=1, reqs='sinks'), workers=(1, 2), liveness=False))
+        e3c += list(F.fam_e3(F.fam_shapes(1, 4, pre=False), workers=(None,), cpu_count=1, liveness=False)) + list(F.fam_e3(F.fam_limits(2, 3, tnames=('TA', 'TB')), workers=(1, 2), linger=True))
+        e3c += list(F.fam_e3(F.fam_faults(1, 3, max_faults=2, kinds=('raise',), fault_exc='filter', types='TX'), workers=(1, 2), liveness=False))
     return run_e2_property('C11', tier, seed, cfgs, serial_configs=serial, e3_configs=e3c, real_cases=list(F.fam_real(F.real_bases('faults') + F.real_bases('limits'), workers=(1, 2))), rule=rule, assumptions=ASSUME)
